@@ -151,6 +151,8 @@ func buildRegistry() {
 			firsts = append(firsts, firstDec{name: fmt.Sprintf("enum:%s:%d", t.name, i), dec: m.DecodeWith, lt: -1, fn: fn})
 		}
 	}
+	// (4) exported Decoder values of package layers that are in no registry
+	firsts = append(firsts, firstDec{name: "name:ProtocolGuessingDecoder", dec: layers.ProtocolGuessingDecoder{}, lt: -1, fn: "ProtocolGuessingDecoder.Decode"})
 	for i := range firsts {
 		f := &firsts[i]
 		firstByName[f.name] = f
@@ -302,7 +304,7 @@ var (
 	jobs      chan job
 	hangCount = map[string]int{}
 	hangLimit = 2
-	watchdog  = 10 * time.Second
+	watchdog  = 20 * time.Second
 )
 
 func worker(ch chan job) {
@@ -441,17 +443,25 @@ func execDec(f *firstDec, bits int, data []byte) string {
 	lib.Stat(fmt.Sprintf("opts:%d", bits))
 	lib.Stat("len:" + lenBucket(len(data)))
 	summary := ""
+	t0 := time.Now()
 	// C01
 	if !timed(func(c *ctx) { summary = monC01(c, f, bits, data) }) {
 		hangCount[lab]++
 		lib.Finding("C01", "all:c01:hang:"+lab, fmt.Sprintf("decoding %d bytes as %s (opts %d) + accessors did not return within %v", len(data), lab, bits, watchdog))
 		return "hang"
 	}
+	// Inputs on which decode+render alone is slow (tens of thousands of layers) get the C01
+	// and C19 monitors only: the other monitors decode and render the input 4-12 more times.
+	slow := time.Since(t0) > 250*time.Millisecond
 	// C19
 	if !timed(func(c *ctx) { monC19(c, f, bits, data) }) {
 		hangCount[lab]++
 		lib.Finding("C19", "all:c19:hang:"+lab, fmt.Sprintf("decoding %d bytes as %s without recovery did not return within %v", len(data), lab, watchdog))
 		return "hang"
+	}
+	if slow {
+		lib.Stat("skipped-slow-input")
+		return "ok " + summary
 	}
 	// C02
 	if !timed(func(c *ctx) { monC02(c, f, bits, data) }) {
